@@ -21,6 +21,7 @@ from .. import core
 from ..impl import refine_adapter as ra
 
 PROP = "C06"
+VARIANT = {"flat": False, "or": False, "ends": False}  # which repairs the implementation carries (detect_variant)
 ALPHABET = [0, 1, 2, 3, "nan"]
 INVALID_MASK = 963
 TOL_SCALE = Fraction(1, 2**14)  # relative float32 error bound used for every numeric comparison
@@ -29,7 +30,7 @@ TOL_SCALE = Fraction(1, 2**14)  # relative float32 error bound used for every nu
 def translate():
     from translator import registry
 
-    return registry.generate("Constants")
+    return registry.generate("Constants", "RefineCC")
 
 
 # ------------------------------------------------------------------------------------------------
@@ -73,7 +74,27 @@ def key_of(case):
 
 
 def model_payload(case):
-    return {k: case[k] for k in ("method", "is_max", "subpix", "dmin", "dmax", "cv", "disp", "mask", "pmin", "pmax") if k in case}
+    out = {k: case[k] for k in ("method", "is_max", "subpix", "dmin", "dmax", "cv", "disp", "mask", "pmin", "pmax") if k in case}
+    out["variant"] = dict(VARIANT)
+    return out
+
+
+def detect_variant(report):
+    """The Lean model follows the code as it is and, per flag, the three repairs of proposed_fixes/C06-*.diff
+    (theorems cover every combination).  Three probes decide which ones the implementation under test carries."""
+    base = {"is_max": False, "mask": [[0]]}
+    flat = ra.run_refinement(dict(base, method="quadratic", subpix=1, dmin=-1, dmax=1, cv=[[[1, 1, 1]]], disp=[[0]]))
+    VARIANT["flat"] = flat["res"] == "ok"
+    twice = ra.run_refinement(dict(base, method="vfit", subpix=1, dmin=-1, dmax=1, cv=[[[5, 1, 3]]], disp=[[-1]], mask=[[8]]))
+    VARIANT["or"] = twice["res"] == "ok" and twice["mask"][0][0] == 8
+    wrap = ra.run_refinement(dict(base, method="vfit", subpix=4, dmin=1, dmax=2, cv=[[[1, 8, 3, 5, 4]]], disp=[["9/8"]]))
+    VARIANT["ends"] = wrap["res"] == "ok" and wrap["mask"][0][0] == 8 and wrap["disp"][0][0] == "9/8"
+    report.notes.append(f"model variant compared with the implementation: {VARIANT}")
+    return VARIANT
+
+
+def extra_evidence():
+    return {"model_variant": dict(VARIANT)}
 
 
 def single_pixel(case, r, c):
@@ -445,8 +466,22 @@ def translator_cross_check(report, status):
         status.problem("translator", "bit 3 / invalid mask are not the documented values")
 
 
+def variant_cross_check(report, status):
+    """what the translator read in the source text (`+=` or `|=`, the form of the interval-end test, the
+    `alpha == 0` guard) agrees with what the three probes observed on the running code"""
+    t11 = (status.generated or {}).get("T11")
+    if not t11:
+        return
+    report.translator_checks += 1
+    read = {k: t11["variant"][k] for k in ("flat", "or", "ends")}
+    if read != VARIANT:
+        status.problem("translator", f"variant read in the source {read} differs from the behaviour observed {VARIANT}")
+
+
 def run(ctx, report, status):
     translator_cross_check(report, status)
+    detect_variant(report)
+    variant_cross_check(report, status)
     report.rule = (
         "one call of the real subpixel_refinement per case, compared pixel by pixel with the Lean model, the Lean "
         "specification evaluated on the implementation's output. Cases: every cost triple over {0,1,2,3,NaN}^3 at "
@@ -477,6 +512,7 @@ def search(ctx, report, status):
     random stream on the real code, the Lean specification as oracle; known findings are skipped."""
     known = {(k.get("clause"), k.get("trigger")) for k in core.load_known(PROP)}
     sub = core.Report(PROP, ctx.tier, ctx.seed)
+    detect_variant(sub)
 
     def first_unknown():
         for f in sub.failures:
@@ -507,6 +543,7 @@ def replay(ctx, report, path):
         data = json.load(f)
     case = data.get("input", data)
     case = {k: v for k, v in case.items() if k != "focus"}
+    detect_variant(report)
     check_case(ctx, report, case, "replay")
     known = {(k.get("clause"), k.get("trigger")) for k in core.load_known(PROP)}
     for fl in report.failures:
